@@ -141,7 +141,12 @@ def correspondence(rep, ctx):
         skip = r.choice([0, 0, 1, 2])
         for _ in range(skip):
             rows.append(r.choice([["nuclide", "quantity"], ["#", "x", "y", "z"], []]))
-        names = [r.choice(radio) for _ in range(nrows)]          # repeats allowed: they accumulate
+        # repeated rows for one nuclide accumulate: half of the files draw their rows from a pool of two or three nuclides,
+        # so that repeats occur in every position (first row, later rows, same or different unit, same or other spelling)
+        pool_ = r.sample(radio, r.choice([2, 3])) if k % 2 == 0 else radio
+        if k % 2 == 0:
+            nrows = r.choice([3, 4, 6, 8])
+        names = [r.choice(pool_) for _ in range(nrows)]
         for nm in names:
             q = 10.0 ** r.uniform(-3, 6)
             cell = r.choice([nm, respell(r, nm).strip(), str(rd.Nuclide(nm).id)])
